@@ -31,8 +31,9 @@ RULE = (
     "law instance with union arity >= 2; distinct by (render A, render B, law)."
 )
 ASSUMPTIONS = [
-    "vp.ty.member over the fixed universe U (about 100 objects) is the membership oracle; counterexamples needing "
-    "objects outside U are out of reach",
+    "vp.ty.member over the fixed universe U (about 100 objects, plus 3 namedtuple instances, plus about 160 instances "
+    "of the user-defined generic classes for pairs that involve one) is the membership oracle; counterexamples needing "
+    "objects outside it are out of reach",
     "documented leniencies excluded from the soundness implication only: L1 bare generic G == G[Any] (pairs whose B "
     "mentions a bare list/dict/set/frozenset/tuple/type class); L2 fixed-length tuple accepts variadic tuple of "
     "compatible element type (membership relaxed accordingly when B mentions a variadic tuple); L3 mock objects "
@@ -609,7 +610,11 @@ def shard(ctx) -> None:
             if is_wide and X.t.kind == "Lit" and isinstance(X.t.extra.v, (list, tuple, dict, set, frozenset)):
                 ctx.count("wide_accepts_container_literal_checks")
                 ctx.histo("wide_vs_container_literal", f"{type(X.t.extra.v).__name__}:{'accepted' if acc else 'rejected'}")
-            wide_member_laws(ctx, W, X, acc, checker)
+            try:
+                wide_member_laws(ctx, W, X, acc, checker)
+            except Exception as e:  # noqa: BLE001
+                ctx.violation(f"raises|{type(e).__name__}|wide-union-law|{pair_key_desc(X)}", f"union laws on {W.text} / {X.text} raised {e!r}",
+                              {"law": "wide-laws", "A": W.text, "B": X.text})
             if acc is not None and annotation_expressible(X) and annotation_expressible(W) and rng.random() < 0.004:
                 e2e.append((W, X, acc))
     # (G) user-defined generic classes: all G x G, and G x depth<=1 in both directions
